@@ -624,11 +624,24 @@ func TestC16(t *testing.T) {
 	allowed := []string{"allowed-ns", "also-ok"}
 	ic := interceptor.NewAccessControlInterceptor(log.NewNoopLogger(), nil, allowed)
 	pstr := "p=|" + strings.Join(allowed, ",")
+	// the method a root REQUEST type really travels under (X for XRequest): a per-method shortcut in the check must not
+	// exempt any of them; response types are given a generic method of their service
 	fullFor := func(r int) string {
-		if g.RootSvc[r] == "admin" {
-			return "/" + adminSvc + "/DescribeMutableState"
+		name := g.Types[r].Go
+		if i := strings.LastIndex(name, "."); i >= 0 {
+			name = name[i+1:]
 		}
-		return "/" + workflowSvc + "/DescribeWorkflowExecution"
+		svc, generic := workflowSvc, "DescribeWorkflowExecution"
+		if g.RootSvc[r] == "admin" {
+			svc, generic = adminSvc, "DescribeMutableState"
+		}
+		if strings.HasSuffix(name, "Request") {
+			return "/" + svc + "/" + strings.TrimSuffix(name, "Request")
+		}
+		return "/" + svc + "/" + generic
+	}
+	denyListed := func(full string) bool { // refused whatever they name (C15)
+		return strings.HasSuffix(full, "/RegisterNamespace") || strings.HasSuffix(full, "/DeprecateNamespace")
 	}
 	var forwarded proto.Message // what the handler (the local cluster) received
 	run := func(m proto.Message, full string) (string, bool) {
@@ -695,7 +708,7 @@ func TestC16(t *testing.T) {
 				if name == "forbidden-ns" && (dec != "denied" || called) {
 					e.Violation(map[string]any{"what": fmt.Sprintf("request naming forbidden namespace at %s (root %s) was not refused (decision %s, handler called %v)", describePath(g, p), g.Types[r].Go, dec, called), "ops": []string{op}})
 				}
-				if allAllowed && dec != "forward" {
+				if allAllowed && dec != "forward" && !denyListed(fullFor(r)) {
 					e.Violation(map[string]any{"what": fmt.Sprintf("request naming only allowed namespaces %v (path %s) was refused", all, describePath(g, p)), "ops": []string{op}})
 				}
 				if dec == "denied" && called {
@@ -789,7 +802,7 @@ func TestC16(t *testing.T) {
 							what = "was refused and still reached the handler"
 						case variant == 2 && dec != "denied":
 							what = "holds a blob that can neither be decoded nor repaired, and was passed on unchecked"
-						case variant < 2 && allAllowed && dec != "forward":
+						case variant < 2 && allAllowed && dec != "forward" && !denyListed(fullFor(r)):
 							what = "names only allowed namespaces and was refused"
 						case variant == 0 && name == "forbidden-ns" && dec != "denied":
 							what = "was not refused"
